@@ -278,7 +278,12 @@ class Facts:
     """
 
     def __init__(self, real=(), hermitian=(), symmetric=(), inverse=(),
-                 diagonal=(), unit_modulus=(), zero_diag=(), idempotent=(), exclusive=()):
+                 diagonal=(), unit_modulus=(), zero_diag=(), idempotent=(), exclusive=(),
+                 superherm=(), traceless4=()):
+        # superherm: conj(R[.., a,b,c,d]) = R[.., b,a,d,c]
+        # traceless4: sum_x R[.., x,x,c,d] = 0
+        self.superherm = set(superherm)
+        self.traceless4 = set(traceless4)
         self.idempotent = set(idempotent) | {"#lt"}   # 0/1 valued factors: x*x = x
         self.exclusive = set(exclusive) | {"#lt"}     # x[i,j]*x[j,i] = 0
         self.real = set(real) | {"#lt", "#trip", "#dim"}
@@ -291,7 +296,8 @@ class Facts:
 
     def describe(self):
         out = []
-        for k in ("real", "hermitian", "symmetric", "diagonal", "unit_modulus", "zero_diag"):
+        for k in ("real", "hermitian", "symmetric", "diagonal", "unit_modulus", "zero_diag",
+                  "superherm", "traceless4"):
             v = {x for x in getattr(self, k) if not x.startswith("#")}
             if v:
                 out.append("%s(%s)" % (k, ",".join(sorted(v))))
@@ -302,7 +308,7 @@ class Facts:
     def without(self, kind, item):
         f = Facts(self.real, self.hermitian, self.symmetric, self.inverse,
                   self.diagonal, self.unit_modulus, self.zero_diag, self.idempotent,
-                  self.exclusive)
+                  self.exclusive, self.superherm, self.traceless4)
         if kind == "inverse":
             f.inverse = [p for p in f.inverse if p != tuple(item)]
         else:
@@ -321,8 +327,18 @@ def _apply_factor_facts(t, facts):
     for f in t.factors:
         if f.conj and f.name in facts.real:
             f = F(f.name, f.idx, False, f.pow)
-        if f.conj and f.name in facts.hermitian and len(f.idx) == 2:
-            f = F(f.name, (f.idx[1], f.idx[0]), False, f.pow)
+        if f.conj and f.name in facts.hermitian and len(f.idx) >= 2:
+            # Hermitian in its last two indices (leading indices are labels)
+            f = F(f.name, f.idx[:-2] + (f.idx[-1], f.idx[-2]), False, f.pow)
+        if f.conj and f.name in facts.superherm and len(f.idx) >= 4:
+            i = f.idx
+            f = F(f.name, i[:-4] + (i[-3], i[-4], i[-1], i[-2]), False, f.pow)
+        if f.name in facts.traceless4 and len(f.idx) >= 4 and f.idx[-4] == f.idx[-3] \
+                and f.idx[-4] in t.sums:
+            x = f.idx[-4]
+            occ = sum(g.idx.count(x) for g in t.factors) + sum(d.count(x) for d in t.deltas)
+            if occ == 2:
+                return None
         if f.name in facts.zero_diag and len(f.idx) == 2 and f.idx[0] == f.idx[1]:
             return None
         if f.name in facts.diagonal and len(f.idx) == 2:
